@@ -5,11 +5,14 @@ pub mod c07;
 pub mod c08;
 pub mod c16;
 pub mod c19;
+pub mod c22;
 
 use crate::framework::Check;
 
 pub fn all() -> Vec<&'static dyn Check> {
-    vec![&c02::C02, &c05::C05, &c06::C06, &c07::C07, &c08::C08, &c16::C16, &c16::C17, &c19::C19]
+    vec![
+        &c02::C02, &c05::C05, &c06::C06, &c07::C07, &c08::C08, &c16::C16, &c16::C17, &c19::C19, &c22::C22,
+    ]
 }
 
 pub fn by_id(id: &str) -> Option<&'static dyn Check> {
